@@ -82,6 +82,7 @@ def splitAcc (acc : String) : String × Bytes :=
 def rowNameOf (meth : String) : String :=
   -- `Query[string]` → `Query`; `Bind.Query:map` → `Bind.Query:source`; `Bind.Body:map` → `Bind.Body:dispatch`
   let m := (meth.splitOn "[").headD meth
+  let m := if m.startsWith "Pre." then (m.drop 4).toString else m     -- early probe of the same accessor
   if m.startsWith "Bind." then
     let base := (m.splitOn ":").headD m
     if base == "Bind.Body" || base == "Bind.Custom" then base ++ ":dispatch" else base ++ ":source"
